@@ -1002,8 +1002,136 @@ func c05_6(c *core.Ctx, p *core.Prog) {
 			drain = s
 		}
 	})
+	// the flush of a non-empty batch: the send function itself, or a package helper every path of which sends
+	// unless the batch is empty
+	countCut := func(f *ssa.Function) map[core.Edge]bool {
+		cut := map[core.Edge]bool{}
+		for _, b := range f.Blocks {
+			iff := core.IfOf(b)
+			if iff == nil {
+				continue
+			}
+			if cmp, ok := iff.Cond.(*ssa.BinOp); ok && cmp.Op == token.GTR {
+				if k, isC := core.ConstInt(cmp.Y); isC && k == 0 && core.DerivesFrom(cmp.X, func(v ssa.Value) bool {
+					cl, ok := v.(*ssa.Call)
+					return ok && cl.Call.IsInvoke() && cl.Call.Method == a.mCount
+				}) {
+					cut[core.Edge{From: b, To: b.Succs[1]}] = true
+				}
+			}
+		}
+		return cut
+	}
+	var isFlush func(i ssa.Instruction) bool
+	flushHelper := map[*ssa.Function]int{}
+	isFlush = func(i ssa.Instruction) bool {
+		if isCallTo(i, a.sendFn) {
+			return true
+		}
+		cl, ok := i.(*ssa.Call)
+		if !ok {
+			return false
+		}
+		h := cl.Call.StaticCallee()
+		if h == nil || h.Pkg != fn.Pkg || len(h.Blocks) == 0 {
+			return false
+		}
+		if v, ok := flushHelper[h]; ok {
+			return v == 2
+		}
+		flushHelper[h] = 1
+		miss, _ := (core.PathQuery{Fn: h, CutEdges: countCut(h), ExitReturnOnly: true, Avoid: isFlush}).Exists()
+		if miss {
+			flushHelper[h] = 1
+			return false
+		}
+		flushHelper[h] = 2
+		return true
+	}
+	// the drain may live in a helper called from the shutdown arm (`b.drainOnShutdown(); return`)
+	region, regionFirst := fn, first
+	var helperCall *ssa.Call
+	if drain == nil {
+		core.EachInstr(fn, func(i ssa.Instruction) {
+			cl, ok := i.(*ssa.Call)
+			if !ok || helperCall != nil || !(cl.Block() == arm.To || core.Reachable(fn, first, cl)) {
+				return
+			}
+			h := cl.Call.StaticCallee()
+			if h == nil || h.Pkg != fn.Pkg || len(h.Blocks) == 0 {
+				return
+			}
+			core.EachInstr(h, func(j ssa.Instruction) {
+				s, ok := j.(*ssa.Select)
+				if !ok || s.Blocking || len(s.States) != 1 || s.States[0].Dir != types.RecvOnly {
+					return
+				}
+				if fa := core.LoadedField(s.States[0].Chan); fa != nil && core.FieldVar(fa) == m.itemChanField {
+					drain, helperCall = s, cl
+				}
+			})
+		})
+		if drain != nil {
+			region, regionFirst = drain.Parent(), drain.Parent().Blocks[0].Instrs[0]
+		}
+	}
 	if drain == nil {
 		c.Viol("drain", p.Pos(first.Pos()), core.FuncName(fn), "on shutdown the shard loop does not drain the request queue with a non-blocking receive: requests already queued are lost")
+		return
+	}
+	if region != fn {
+		// helper form: the clauses are evaluated inside the helper; what the loop does after the helper returned
+		// (flush if the helper did not, then return) is checked on the loop
+		recvEdge, ok1 := selectArm(drain, 0)
+		defEdge, ok2 := selectArm(drain, 1)
+		if !ok1 || !ok2 {
+			c.Undecided("drain", p.Pos(drain.Pos()), core.FuncName(region), "select lowering not recognised")
+			return
+		}
+		var msgs []string
+		flushedInHelper := true
+		for _, r := range core.Returns(region) {
+			if ok, _ := (core.PathQuery{Fn: region, From: regionFirst, To: r, CutEdges: map[core.Edge]bool{defEdge: true}}).Exists(); ok {
+				msgs = append(msgs, fmt.Sprintf("%s: the drain helper can return without having found the request queue empty", p.Pos(r.Pos())))
+			}
+			if defEdge.To.Instrs[0] != ssa.Instruction(r) && isFlush(defEdge.To.Instrs[0]) {
+				continue
+			}
+			if ok, _ := (core.PathQuery{Fn: region, From: defEdge.To.Instrs[0], To: r, CutEdges: countCut(region), Avoid: isFlush}).Exists(); ok || defEdge.To.Instrs[0] == ssa.Instruction(r) {
+				flushedInHelper = false
+			}
+		}
+		nret := 0
+		for _, r := range core.Returns(fn) {
+			if !core.Reachable(fn, helperCall, r) {
+				continue
+			}
+			if ok, _ := (core.PathQuery{Fn: fn, From: nil, To: r, CutEdges: map[core.Edge]bool{arm: true}}).Exists(); ok {
+				continue
+			}
+			nret++
+			if !flushedInHelper {
+				if ok, _ := (core.PathQuery{Fn: fn, From: helperCall, To: r, CutEdges: countCut(fn), Avoid: isFlush}).Exists(); ok {
+					msgs = append(msgs, fmt.Sprintf("%s: after draining, a path returns without flushing a non-empty batch (no send and no itemCount()>0 test on it)", p.Pos(r.Pos())))
+				}
+			}
+		}
+		if nret == 0 {
+			msgs = append(msgs, "the shutdown arm never returns: Shutdown would wait forever")
+		}
+		// nothing but the helper between the arm and the return that could lose the queue: the helper is called on every path of the arm
+		if ok, _ := (core.PathQuery{Fn: fn, From: first, CutEdges: map[core.Edge]bool{}, ExitReturnOnly: true, Avoid: func(i ssa.Instruction) bool { return i == ssa.Instruction(helperCall) }}).Exists(); ok && first != ssa.Instruction(helperCall) {
+			msgs = append(msgs, "the shutdown arm can return without calling the drain helper")
+		}
+		c.Check(len(msgs) == 0, "drain|return", p.Pos(drain.Pos()), core.FuncName(region), "every return after shutdown follows an empty-queue observation and a flush of a non-empty batch", strings.Join(msgs, "; "))
+		handled := true
+		if ok, _ := (core.PathQuery{Fn: region, From: recvEdge.To.Instrs[0], To: drain, Avoid: func(i ssa.Instruction) bool { return isCallTo(i, m.processFn) }}).Exists(); ok && !isCallTo(recvEdge.To.Instrs[0], m.processFn) {
+			handled = false
+		}
+		if ok, _ := (core.PathQuery{Fn: region, From: recvEdge.To.Instrs[0], To: nil, Avoid: func(i ssa.Instruction) bool { return isCallTo(i, m.processFn) }}).Exists(); ok && !isCallTo(recvEdge.To.Instrs[0], m.processFn) {
+			handled = false
+		}
+		c.Check(handled, "drain|handle", p.Pos(drain.Pos()), core.FuncName(region), "every request drained on shutdown is passed to the item handler", "a request received while draining on shutdown can bypass the item handler: its items are lost")
 		return
 	}
 	recvEdge, ok1 := selectArm(drain, 0)
@@ -1042,10 +1170,10 @@ func c05_6(c *core.Ctx, p *core.Prog) {
 				}
 			}
 		}
-		q := core.PathQuery{Fn: fn, From: defEdge.To.Instrs[0], To: r, CutEdges: cut, Avoid: func(i ssa.Instruction) bool { return isCallTo(i, a.sendFn) }}
+		q := core.PathQuery{Fn: fn, From: defEdge.To.Instrs[0], To: r, CutEdges: cut, Avoid: isFlush}
 		if defEdge.To.Instrs[0] == ssa.Instruction(r) {
 			msgs = append(msgs, fmt.Sprintf("%s: returns right after draining without flushing", p.Pos(r.Pos())))
-		} else if isCallTo(defEdge.To.Instrs[0], a.sendFn) {
+		} else if isFlush(defEdge.To.Instrs[0]) {
 			// first instruction already is the flush
 		} else if ok, _ := q.Exists(); ok {
 			msgs = append(msgs, fmt.Sprintf("%s: after draining, a path returns without flushing a non-empty batch (no send and no itemCount()>0 test on it)", p.Pos(r.Pos())))
